@@ -523,8 +523,14 @@ func bucket(n int) string {
 	return ">1000"
 }
 
+// opsSeen: per process, in how many cases each opcode executed successfully
+var opsSeen [256]int
+
 func classify(cd *caseData, o *outcome, tr *tracer, rec *recDB) {
 	vstat.Label("result:" + errClass(o.err))
+	if o.err == evm.ErrOutOfGas && tr.topFailOp != "" {
+		vstat.Label("top-level-out-of-gas-at:" + tr.topFailOp)
+	}
 	vstat.Label("depth:" + bucket(tr.maxDepth))
 	vstat.Label("steps:" + bucket(tr.steps))
 	vstat.Label("inner_frames:" + bucket(tr.innerFrames))
@@ -562,6 +568,7 @@ func classify(cd *caseData, o *outcome, tr *tracer, rec *recDB) {
 	for op, n := range tr.ops {
 		if n > 0 {
 			vstat.Label("op:" + evm.OpCode(op).String())
+			opsSeen[op]++
 		}
 	}
 	if tr.steps >= 10 || tr.innerFrames >= 1 {
@@ -657,25 +664,43 @@ func FuzzExec(f *testing.F) {
 	})
 }
 
-// TestOpcodeTable: every byte value once as the only interesting opcode of a program (with 17 words
-// on the stack), through every entry point: the whole jump table is covered by construction.
+// TestOpcodeTable: every byte value once as the only interesting opcode of a program, through
+// every entry point: the whole jump table is covered by construction.  Layout: 16 x PUSH1 0,
+// PUSH1 35, <op> at pc 34, JUMPDEST at pc 35, STOP - so that the op finds 17 operands, a JUMP /
+// JUMPI lands on the JUMPDEST and sizes are zero.
 func TestOpcodeTable(t *testing.T) {
-	valid := 0
+	var valid, unseen []string
 	for op := 0; op < 256; op++ {
 		code := prog(func(a *asm) {
-			for i := 0; i < 17; i++ {
-				a.pushU(uint64(i % 3))
+			for i := 0; i < 16; i++ {
+				a.pushU(0)
 			}
-			a.raw(byte(op)).op(evm.STOP)
+			a.pushU(35).raw(byte(op)).op(evm.JUMPDEST, evm.STOP)
 		})
+		before := opsSeen[op]
 		for mode := uint8(0); mode < 5; mode++ {
 			checkCase(t, uniformCase(code, []byte{1, 2, 3, 4}, 3000000, 0, mode))
 		}
-		if !strings.Contains(evm.OpCode(op).String(), "Missing opcode") && !strings.Contains(evm.OpCode(op).String(), "not defined") {
-			valid++
+		// is it in the jump table?  (ask the interpreter, the table is private)
+		cd := uniformCase(code, nil, 3000000, 0, 0)
+		w, err := buildWorld(cd.World)
+		if err != nil {
+			t.Fatal(err)
+		}
+		st := w.fresh()
+		tr := newTracer(nil, cd.Main.Gas)
+		o := execute(newEVM(st, cd.Main, tr), st, cd.Main, new(big.Int), tr)
+		if o.pan == nil && errClass(o.err) != "invalid-opcode" {
+			valid = append(valid, evm.OpCode(op).String())
+			if opsSeen[op] == before {
+				unseen = append(unseen, evm.OpCode(op).String())
+			}
 		}
 	}
-	vstat.Note(fmt.Sprintf("TestOpcodeTable ran all 256 byte values as opcodes through 5 entry points (%d of them named in vm/evm/opcodes.go); the labels op:<NAME> list every opcode that executed successfully at least once", valid))
+	vstat.Note(fmt.Sprintf("TestOpcodeTable ran all 256 byte values as opcodes through 5 entry points; %d are valid in the jump table of the interpreter; valid opcodes that did not execute successfully in this enumeration: %v (the labels op:<NAME> count, over all tests, the cases in which an opcode executed successfully)", len(valid), unseen))
+	if len(unseen) > 0 {
+		t.Errorf("harness: opcode enumeration does not execute %v successfully", unseen)
+	}
 }
 
 // ---------------------------------------------------------------- regressions of the listed findings
@@ -807,6 +832,8 @@ func seedPrograms() []seed {
 			a.pushU(64).pushU(0).pushU(0).op(evm.ADDRESS, evm.EXTCODECOPY).pushU(64).pushU(0).op(evm.RETURN)
 		}), nil, g(100000, 0), 0},
 		{"init-code-deploying", deployer(ret42), nil, g(1000000, 3), 0},
+		{"two-creates-jumping-init-codes", jumpdestCrashCode(), nil, g(1000000, 0), 0},
+		{"issue-then-loop-on-decimals-query", issueLoopCode(), nil, g(100000, 0), 0},
 		{"blockhash-env", prog(func(a *asm) {
 			a.pushU(blockNumber-1).op(evm.BLOCKHASH, evm.NUMBER, evm.TIMESTAMP, evm.COINBASE, evm.GASLIMIT, evm.DIFFICULTY, evm.GASPRICE, evm.ORIGIN, evm.CALLTOKENADDRESS, evm.CALLTOKENVALUE, evm.CALLVALUE)
 		}), nil, g(100000, 0), 7},
